@@ -28,12 +28,31 @@ def gen_doc(rng):
 
     sent = [0]
 
+    def stext():
+        sent[0] += 1
+        return "S%dX" % sent[0]
+
+    def raw():
+        """balanced author HTML: (coq token list, mjml source)"""
+        tags.add("mj-raw")
+        t = stext()
+        shape = rng.choice(["i", "div-p", "text", "br"])
+        if shape == "i":
+            return '[o "i"; tx (lit "%s"); c "i"]' % t, "<mj-raw><i>%s</i></mj-raw>" % t
+        if shape == "div-p":
+            return '[o "div"; o "p"; tx (lit "%s"); c "p"; c "div"]' % t, '<mj-raw><div class="r"><p>%s</p></div></mj-raw>' % t
+        if shape == "br":
+            return '[tx (lit "%s"); o "br"; o "b"; c "b"]' % t, "<mj-raw>%s<br/><b></b></mj-raw>" % t
+        return '[tx (lit "%s")]' % t, "<mj-raw>%s</mj-raw>" % t
+
     def leaf():
+        if rng.random() < 0.1:
+            t, m = raw()
+            return "KRaw %s" % t, m
         k = rng.choice(list(LEAF))
         m = rng.choice(LEAF[k])
         if k in WITH_TEXT:
-            sent[0] += 1
-            t = "S%dX" % sent[0]
+            t = stext()
             return '%s (lit "%s")' % (k, t), m % t
         return k, m
 
@@ -43,14 +62,24 @@ def gen_doc(rng):
         attrs = rng.choice(COL_ATTRS) + (rng.choice([' padding="5px"', ' padding-left="10px"', ' padding="0 20px"']) if gutter else "")
         if gutter:
             tags.add("column-gutter")
-        return ("(%s, [%s])" % ("true" if gutter else "false", "; ".join(t for t, _ in ks)), "<mj-column%s>%s</mj-column>" % (attrs, "".join(m for _, m in ks)))
+        return ("CI (%s, [%s])" % ("true" if gutter else "false", "; ".join(t for t, _ in ks)), "<mj-column%s>%s</mj-column>" % (attrs, "".join(m for _, m in ks)))
+
+    def items(maxn):
+        out = []
+        for _ in range(rng.choice(list(range(maxn + 1)))):
+            if rng.random() < 0.15:
+                t, m = raw()
+                out.append(("RI %s" % t, m))
+            else:
+                out.append(col())
+        return out
 
     def sec():
         if rng.random() < 0.7:
-            cs = [col() for _ in range(rng.choice([0, 1, 2, 2, 3, 4]))]
+            cs = items(4)
             tags.add("columns:%d" % len(cs))
             return "Cols [%s]" % "; ".join(c for c, _ in cs), "".join(m for _, m in cs)
-        gs = [[col() for _ in range(rng.choice([0, 1, 2, 3]))] for _ in range(rng.choice([1, 1, 2, 3]))]
+        gs = [items(3) for _ in range(rng.choice([1, 1, 2, 3]))]
         tags.add("groups:%d" % len(gs))
         return ("Groups [%s]" % "; ".join("[" + "; ".join(c for c, _ in g) + "]" for g in gs),
                 "".join("<mj-group%s>%s</mj-group>" % (rng.choice(GROUP_ATTRS), "".join(m for _, m in g)) for g in gs))
@@ -65,21 +94,31 @@ def gen_doc(rng):
 
     def block():
         x = rng.random()
-        if x < 0.45:
+        if x < 0.42:
             c, m = sect()
             tags.add("plain-section")
             return "Plain %s" % c, m
-        if x < 0.62:
+        if x < 0.57:
             c, m = sect(' full-width="full-width"')
             tags.add("full-width-section")
             return "FullWidth %s" % c, m
-        if x < 0.75:
+        if x < 0.68:
             ks = [leaf() for _ in range(rng.choice([0, 1, 2, 3]))]
             tags.add("hero")
             return "Hero [%s]" % "; ".join(t for t, _ in ks), "<mj-hero%s>%s</mj-hero>" % (rng.choice(["", ' background-color="#222"', ' mode="fixed-height" height="300px"']), "".join(m for _, m in ks))
-        ss = [sect() for _ in range(rng.choice([0, 1, 2, 3]))]
-        tags.add("wrapper:%d" % len(ss))
-        return ("Wrap [%s]" % "; ".join(c for c, _ in ss), "<mj-wrapper%s>%s</mj-wrapper>" % (rng.choice(WRAP_ATTRS), "".join(m for _, m in ss)))
+        if x < 0.76:
+            t, m = raw()
+            return "Raw %s" % t, m
+        ws = []
+        for _ in range(rng.choice([0, 1, 2, 3, 4])):
+            if rng.random() < 0.2:
+                t, m = raw()
+                ws.append(("WR %s" % t, m))
+            else:
+                c, m = sect()
+                ws.append(("WS %s" % c, m))
+        tags.add("wrapper:%d" % len(ws))
+        return ("Wrap [%s]" % "; ".join(c for c, _ in ws), "<mj-wrapper%s>%s</mj-wrapper>" % (rng.choice(WRAP_ATTRS), "".join(m for _, m in ws)))
     bs = [block() for _ in range(rng.choice([0, 1, 2, 3, 4, 5, 6]))]
     tags.add("blocks:%d" % len(bs))
     return "[%s]" % "; ".join(c for c, _ in bs), "<mjml><mj-body>%s</mj-body></mjml>" % "".join(m for _, m in bs), sorted(tags)
